@@ -411,6 +411,18 @@ func matchBodyResults(p *Program, ee *ssa.Function, arm *typeCase, matched *ssa.
 func c19R4(c *Ctx, matcher *ssa.Function, patterns *ssa.Parameter, loop rangeLoop) {
 	p := c.P
 	c.note("R4 pattern-table: per pattern node type in the matcher — *ExprLiteral: subject.Equals(literal) (the == relation: unset equals nothing, otherwise Compare == 0), reached whenever the literal evaluated without error, match iff true; *ExprIdentifier: a fresh map binding the identifier's text to the subject, verdict true; *ExprArray: subject tag == array and equal lengths else no match, element-wise recursion on (element i, pattern i), verdict true only after the element loop; any other node type: error.")
+	// the matcher answers (matched, bindings, error): the bindings of an attempt are a value of that
+	// attempt. A matcher that fills a table handed in by its caller keeps the names bound by patterns
+	// that failed half-way (they then shadow outer variables and alias parts of the subject)
+	if res := matcher.Signature.Results(); res.Len() != 3 || !isBoolType(res.At(0).Type()) || !isErrorType(res.At(2).Type()) {
+		c.violated("R4", "bindings-are-a-result", p.Pos(matcher.Pos()), "the matcher "+shortName(matcher)+" does not return (matched, bindings, error): the bindings of an alternative are not a result of trying that alternative (an accumulator filled in place keeps the bindings of alternatives that failed)")
+		return
+	}
+	if _, isMap := matcher.Signature.Results().At(1).Type().Underlying().(*types.Map); !isMap {
+		c.violated("R4", "bindings-are-a-result", p.Pos(matcher.Pos()), "the matcher's second result is not the table of bindings")
+		return
+	}
+	c.ok("R4", "bindings-are-a-result", p.Pos(matcher.Pos()), "the matcher returns (matched, bindings, error)")
 	// the pattern element value: load of &patterns[i]
 	var elem ssa.Value
 	allInstrs(matcher, func(in ssa.Instruction) {
@@ -578,9 +590,47 @@ func c19R4(c *Ctx, matcher *ssa.Function, patterns *ssa.Parameter, loop rangeLoo
 			}
 			c.check(good && n == 1, "R4", "identifier-binds", p.Pos(matcher.Pos()), "identifier pattern: fresh map {name: subject}, verdict true", "the identifier arm does not return (true, fresh map binding the identifier's text to the subject, nil)")
 		case "ExprArray":
+			// the arm may sit in a helper of its own (`matchArrayPattern(value, pattern)`): the matcher then
+			// passes the helper's verdict and bindings on, and the arm's rules are decided in the helper
+			fnA, regA, FA := matcher, reg, F
+			var subjA ssa.Value = subject
+			if h, hc := arrayArmHelper(p, matcher, reg, subject); h != nil {
+				okPass := true
+				var v0 ssa.Value
+				for _, r := range referrersOf(hc) {
+					if ex, ok := r.(*ssa.Extract); ok && ex.Index == 0 {
+						v0 = ex
+					}
+				}
+				for b := range reg {
+					r, ok := b.Instrs[len(b.Instrs)-1].(*ssa.Return)
+					if !ok {
+						continue
+					}
+					res := effectiveResults(r)
+					if v, isC := constBool(res[0]); isC && v {
+						known, val := F.At(b).Truth(v0)
+						ex, isEx := res[1].(*ssa.Extract)
+						if v0 == nil || !known || !val || !isEx || ex.Tuple != ssa.Value(hc) || ex.Index != 1 {
+							okPass = false
+						}
+					}
+				}
+				c.check(okPass, "R4", "array-helper-verdict", p.InstrPos(hc), "the matcher answers true with the helper's bindings exactly when the helper matched", "the array arm's helper "+shortName(h)+" is called but its verdict / bindings are not what the matcher returns")
+				fnA, FA = h, FactsOf(h)
+				regA = map[*ssa.BasicBlock]bool{}
+				for _, b := range h.Blocks {
+					regA[b] = true
+				}
+				for i, a := range hc.Call.Args {
+					if a == ssa.Value(subject) && i < len(h.Params) {
+						subjA = h.Params[i]
+					}
+				}
+			}
 			// recursion on (element, [pattern i])
 			var rec *ssa.Call
-			for b := range reg {
+			for b := range regA {
 				for _, in := range b.Instrs {
 					if call, ok := in.(*ssa.Call); ok && call.Call.StaticCallee() == matcher {
 						rec = call
@@ -588,18 +638,18 @@ func c19R4(c *Ctx, matcher *ssa.Function, patterns *ssa.Parameter, loop rangeLoo
 				}
 			}
 			if rec == nil {
-				c.violated("R4", "array-recursion", p.Pos(matcher.Pos()), "the array arm does not recurse on the elements")
+				c.violated("R4", "array-recursion", p.Pos(fnA.Pos()), "the array arm does not recurse on the elements")
 				continue
 			}
 			// guard facts at the recursion: tag == ValueArray and len(subject array) == len(items)
 			tagOK, lenOK := false, false
-			for _, rl := range F.At(rec.Block()).Rels() {
+			for _, rl := range FA.At(rec.Block()).Rels() {
 				if rl.op != relEQ {
 					continue
 				}
 				if sf, ok := loadedField(rl.x); ok && sf.Is("Value", "Tag") {
 					if k, ok := constInt(rl.y); ok && constNames(p.Lang.Types, "ValueTag")[k] == "ValueArray" {
-						tagOK = derivesFrom(rl.x, func(v ssa.Value) bool { return v == ssa.Value(subject) }, 0)
+						tagOK = derivesFrom(rl.x, func(v ssa.Value) bool { return v == subjA }, 0)
 					}
 				}
 				if isLenOf(rl.x, "Value", "Array") && isLenOf(rl.y, "ExprArray", "Items") || isLenOf(rl.y, "Value", "Array") && isLenOf(rl.x, "ExprArray", "Items") {
@@ -631,7 +681,7 @@ func c19R4(c *Ctx, matcher *ssa.Function, patterns *ssa.Parameter, loop rangeLoo
 			// store happens in every iteration and the loop is left only at its end (a repeated name is
 			// not a constraint: an identifier matches anything)
 			nMerge := 0
-			for blk := range reg {
+			for blk := range regA {
 				for _, in := range blk.Instrs {
 					mu, ok := in.(*ssa.MapUpdate)
 					if !ok {
@@ -642,7 +692,7 @@ func c19R4(c *Ctx, matcher *ssa.Function, patterns *ssa.Parameter, loop rangeLoo
 					}
 					// the innermost loop around the store
 					var hdr *ssa.BasicBlock
-					for _, h := range matcher.Blocks {
+					for _, h := range fnA.Blocks {
 						if !h.Dominates(mu.Block()) || !reachableFrom([]*ssa.BasicBlock{mu.Block()}, nil)[h] {
 							continue
 						}
@@ -661,13 +711,13 @@ func c19R4(c *Ctx, matcher *ssa.Function, patterns *ssa.Parameter, loop rangeLoo
 					}
 					nMerge++
 					inLoop := map[*ssa.BasicBlock]bool{}
-					for _, x := range matcher.Blocks {
+					for _, x := range fnA.Blocks {
 						if hdr.Dominates(x) && reachableFrom([]*ssa.BasicBlock{x}, nil)[hdr] {
 							inLoop[x] = true
 						}
 					}
 					stop := map[*ssa.BasicBlock]bool{mu.Block(): true}
-					for _, x := range matcher.Blocks {
+					for _, x := range fnA.Blocks {
 						if !inLoop[x] {
 							stop[x] = true
 						}
@@ -687,7 +737,7 @@ func c19R4(c *Ctx, matcher *ssa.Function, patterns *ssa.Parameter, loop rangeLoo
 				}
 			}
 			if nMerge == 0 {
-				c.undecided("R4", "array-bindings-merged-unconditionally", p.Pos(matcher.Pos()), "no merge of sub-match bindings into the alternative's map found")
+				c.undecided("R4", "array-bindings-merged-unconditionally", p.Pos(fnA.Pos()), "no merge of sub-match bindings into the alternative's map found")
 			}
 		}
 	}
@@ -870,4 +920,35 @@ func c19AlternativesKept(c *Ctx) {
 	if n == 0 {
 		c.undecided("R4", "alternatives-kept", p.Pos(mp.Pos()), "no store to MatchCase.Exprs found in the match parselet")
 	}
+}
+
+// arrayArmHelper: the array arm of the matcher delegates to a helper of its own — a function only the
+// matcher calls, given the subject, answering (matched, bindings, error).
+func arrayArmHelper(p *Program, matcher *ssa.Function, reg map[*ssa.BasicBlock]bool, subject ssa.Value) (*ssa.Function, *ssa.Call) {
+	for b := range reg {
+		for _, in := range b.Instrs {
+			call, ok := in.(*ssa.Call)
+			if !ok {
+				continue
+			}
+			h := call.Call.StaticCallee()
+			if h == nil || h == matcher || !p.InLang(h) || len(h.Blocks) == 0 || !isPrivateTo(p, h, matcher) {
+				continue
+			}
+			res := h.Signature.Results()
+			if res.Len() != 3 || !isBoolType(res.At(0).Type()) || !isErrorType(res.At(2).Type()) {
+				continue
+			}
+			passes := false
+			for _, a := range call.Call.Args {
+				if a == subject {
+					passes = true
+				}
+			}
+			if passes {
+				return h, call
+			}
+		}
+	}
+	return nil, nil
 }
